@@ -75,7 +75,40 @@ def observe(cat, k, old_j, new_j):
     show_rules = _N[0] % 2 == 0
     glines = [lex_signed(l.rstrip("\n"), True) for l in gen_pre_as_diff(patching.make_pre(ds), show_rules, "  ", True) if not l.startswith("#")]
     return {"rb": k, "old": old_j, "new": new_j, "diff": cases.jdiff(d), "stripped": cases.jdiff(ds), "self": cases.jdiff(dself),
-            "flines": flines, "glines": glines}
+            "flines": flines, "glines": glines, "_ds": ds}
+
+
+def multi_diff_cases(ctx, cat, batch, rnd, n):
+    import types
+    from annet import diff as ann_diff
+    from .. import genrun
+    cands = [r for r in batch if r.get("_ds")]
+    if len(cands) < 3:
+        return
+    for k in range(n):
+        picks = rnd.sample(cands, 3)
+        if k % 3 == 0:
+            picks[2] = picks[0]                      # two devices with the same diff
+        devs = [genrun.Dev(cat.hw, "dev%d" % i) for i in range(3)]
+        for i, d in enumerate(devs):
+            d.id = i + 1
+        diffs = {d: r["_ds"] for d, r in zip(devs, picks)}
+        args = types.SimpleNamespace(no_collapse=(k % 2 == 0), show_rules=False, indent="  ", no_color=True)
+        try:
+            entries = list(ann_diff.gen_sort_diff(diffs, args))            # collected first ...
+            texts = {label: "".join(body) if not isinstance(body, str) else body for (label, body, _f) in entries}      # ... rendered afterwards
+        except Exception as e:
+            batch.append(dict(picks[0], id="%s-multi%d" % (picks[0]["id"], k), exc="gen_sort_diff: " + repr(e)))
+            continue
+        for d, r in zip(devs, picks):
+            mine = [t for label, t in texts.items() if ("%s.cfg" % d.hostname) in label.split(", ")]
+            rec = {kk: vv for kk, vv in r.items() if kk != "_ds"}
+            rec["id"] = "%s-multi%d-%s" % (r["id"], k, d.hostname)
+            if len(mine) != 1:
+                rec["exc"] = "annet diff shows %d entries for device %s" % (len(mine), d.hostname)
+            else:
+                rec["glines"] = [lex_signed(l, True) for l in mine[0].split("\n") if l.strip()]
+            batch.append(rec)
 
 
 def perturb(t, rnd, depth=0, ign=((), ())):
@@ -144,6 +177,11 @@ def run(ctx):
                         rec = observe(cat, k, mk(o), mk(nw))
                         rec["id"] = "%s-%s-big%d" % (prof, nm, len(batch))
                         batch.append(rec)
+        # `annet diff` over several devices: the CLI collects the entries of gen_sort_diff first and renders them afterwards (devices with
+        # the same diff share one entry); every device must be shown ITS diff
+        multi_diff_cases(ctx, cat, batch, rnd, 12 if quick else 200)
+        for rec in batch:
+            rec.pop("_ds", None)
         ctx.count(len(batch))
         for rec in batch:
             if rec["stripped"]:
@@ -153,7 +191,9 @@ def run(ctx):
         verd = ctx.judge("trace/Trace_Diff.tla", "trace/Trace.cfg", batch, env={"AUX_FILE": aux}, shards=16, name="Trace_Diff[%s]" % prof)
         for rec in batch:
             v = verd[rec["id"]][0]
-            if v != "ok":
+            if rec.get("exc"):
+                ctx.reject(rec["id"], "annet-diff-view-of-several-devices-broken [%s]" % rec["exc"][:80], rec, None)
+            elif v != "ok":
                 rec["profile"] = prof
                 rec["rule_text"] = cat.compiled[rec["rb"] - 1]["text"]
                 ctx.reject(rec["id"], v, rec, None)
